@@ -10,6 +10,7 @@ tokens: X<τ> set_expiry (τ = N | int) · A<T|F><v> reply dispatched now · S<d
 S<delay>:O<dur> peer message readable `delay` ticks from now · V conn.serve(0) · C<c> add_callback ·
 r ready · e error · x expired · v value · w wait · T<d> tick · Y<τ> sync_request with configured
 timeout τ (fresh result) · Z<τ> timed(proxy, τ)(...) (fresh result) · Q<τ> async_request(timeout=τ) ·
+P<τ> conn.poll_all(τ) by unrelated activity ·
 W<τ> make a `timed(proxy, τ)` wrapper (no request yet) · K call that wrapper (fresh result) ·
 D the application drops its own reference to the result (not part of the model's state: the identity on `World`;
 the connection's registry entry `live` is what keeps the request answerable).
@@ -24,6 +25,7 @@ inductive AOp where
   | timed (τ : Option Int)
   | areq (τ : Option Int)
   | sendReply (d : Nat) (next : Bool) (e : Bool) (v : Nat)
+  | pollAll (τ : Option Int)
   | mkTimed (τ : Option Int)
   | callTimed
   | dropRef
@@ -83,6 +85,7 @@ def parseAOp (tok : String) : Option AOp :=
     | _ => none
   | ['V'] => some (.ev .serve1)
   | 'U' :: cs => (parseTau cs).map (fun t => .ev (.serveT t))
+  | 'P' :: cs => (parseTau cs).map .pollAll
   | 'C' :: cs => (parseNatChars cs).map (fun c => .ev (.addCallback c))
   | ['r'] => some (.ev .qReady)
   | ['e'] => some (.ev .qError)
@@ -124,9 +127,23 @@ def showWorld (w : World) : String :=
     ++ " busy" ++ showPairs w.busy
     ++ " ttl" ++ (if w.ar.ttl.finite then toString w.ar.ttl.tmax else "inf")
 
+/-- `Connection.poll_all(timeout)` by unrelated activity of this thread: `timeout = Timeout(timeout)`; `while True:
+poll(timeout); if timeout.expired(): break` - i.e. `serve` up to the deadline at least once and again for as long as
+the deadline has not passed.  Not an event of its own: a run of `serveAt deadline` environment events.  With no deadline
+it never returns once the channel is empty (`hang`). -/
+def pollAllLoop : Nat → World → Timeout → World × Obs
+  | 0, w, _ => (w, .fuel)
+  | f + 1, w, t =>
+    match serve w t with
+    | none => (w, .hang)
+    | some w' => if t.expired w'.now then (w', .unit) else pollAllLoop f w' t
+
 /-- the wrapper made by the last `W` token travels next to the world; `K` without one is rejected -/
 def applyAOp (w : World) (tw : Option Timed) : AOp → Option (World × Option Timed × Obs)
   | .ev e => some ((step w e).1, tw, (step w e).2)
+  | .pollAll τ =>
+    let r := pollAllLoop (w.chan.length + 2) w (Timeout.make w.now τ)
+    some (r.1, tw, r.2)
   | .sendReply d nx e v =>
     some ((step w (.send d (.reply (if nx then w.seq + 1 else w.seq) e v))).1, tw, .unit)
   | .sync τ => some ((syncRequest w τ).1, tw, (syncRequest w τ).2)
